@@ -164,7 +164,15 @@ fn evaluate_inner(plan: &Plan, out: &RunOut, obs: &mut Vec<Violation>) -> Vec<Vi
             p,
             &format!("{pre}.hang"),
             format!("virtual time {} s: {}; pending tasks={} : {}", out.end_ns / 1_000_000_000, out.app.hang_reason, out.app.pending, pending.join(" | ")),
-            if out.app.hang_reason.starts_with("datagrams") { "livelock" } else { "parked" },
+            // cause signature: the only task left is the server-side read of an accepted stream
+            // that no client stream corresponds to (a "ghost" accept created from a retransmitted
+            // or delayed first-flight datagram of a stream that already finished)
+            if out.app.hang_reason.starts_with("datagrams") {
+                let only_ghost = !out.app.handler_reads.is_empty() && out.app.actors.iter().all(|(_, a)| !a.started || a.done);
+                if only_ghost { "livelock:ghost_stream_accepted_by_server_never_ends" } else { "livelock" }
+            } else {
+                "parked"
+            },
         ));
     }
 
